@@ -470,15 +470,23 @@ void h_choose(void) { SaslMechanism pm; g_probe = pm; g_i = nondet_long(); gh_sr
             'A-QSV / A-QSTRING (units/C05/model_b.h): QStringView ==, startsWith (non-empty needle, case sensitive), mid(pos) with Qt 5.15 clamping, size; u"..."_s and QStringBuilder operator+ '
             'concatenate UTF-16 code units; results of toString fit 24 code units (else MODEL-LIMIT)',
             'std::array<QStringView, N>::at(i) throws for i >= N (checked as an assertion), ::size() = N; the table ianaHashAlgorithms is extracted from the AST',
+            'callers (units/C05/model_c.h, partc.py): A-QLIST-SEQ a QList<QString> is a sequence of up to two array segments, std::ranges::copy(vector, back_inserter(list)) appends; '
+            'A-TASK makeReadyTask / QXmppPromise / task(); A-SEND sendData(serializeXml(x)) = "x was sent" (event); QXmpp::Private::contains over std::vector<QString> is an uninterpreted, '
+            'stable membership predicate; SaslMechanism::toString is a function of the mechanism value (its content is proved on concrete strings in this run)',
+            'QXmppSaslClient::create(m, parent) returns null or a client object whose mechanism() is m (ASSUMED: the factory and the mechanism() overrides are not lowered here); '
+            'setHost / setServiceType / setUsername / setCredentials / respond of the client are used through contracts that only record the calls',
+            'in the proofs of the callers chooseMechanism resp. initSaslAuthentication are replaced by summaries implied by their verified contracts (the call happened with these arguments; '
+            'an error carries no client, a success carries a client) -- the callers are verified for every answer',
         ],
         'assumes': scan_assumes(alltext),
         'not_covered': [
             'what QXmppConfiguration stores (setters, defaults such as PLAIN being disabled by default)',
             'the contents of the returned list of disabled-but-offered names (only feeds the error text)',
-            'the callers: initSaslAuthentication (mechanism mismatch error when chooseMechanism returns none), SaslManager::authenticate, Sasl2Manager::authenticate (FAST merge of the '
-            'mechanism lists, auth.fast flag) and FastTokenManager -- not lowered in this unit',
-            'QXmppSaslClient::create (that the client object created for the chosen mechanism announces exactly that mechanism) and the first <auth/> bytes (C06)',
+            'QXmppSaslClient::create and the mechanism() overrides (that the client object created for the chosen mechanism announces exactly that mechanism): assumed contract; '
+            'the bytes of <auth/> / <authenticate/> (serializeXml) and the first response (C06)',
+            'FastTokenManager::onSasl2Authenticate (which token mechanism is REQUESTED for later use) and the call sites of the two authenticate functions in QXmppOutgoingClient',
             'the order among the legacy X- mechanisms and between SCRAM-SHA-512 and SCRAM-SHA3-512 (same digest length): the property does not fix it',
+            'SaslMechanism::fromString (top level) on the input class of finding C05-ht-garbled-name ("HT-" + two hash names ...): excluded by precondition there, reported at SaslHtMechanism::fromString',
             'a comparator other than the default in std::ranges::max, or a renamed local named by the loop contract: exit 2 (tool limit), not a verdict',
         ],
         'explanation': 'chooseMechanism is lowered from the AST clang 16 produces (fully typed); the std::views pipeline is turned into one loop by the named rule views:pipeline '
